@@ -423,8 +423,14 @@ func (p *parser) handleTypeArgs() *token {
 				// Deferred(...) needs at least the name of what is deferred
 				panic(badSyntax(&token{i: rightParen, s: `)`}, exElement))
 			}
+			// the name is a string (or identifier): printing another kind of value here needs an active
+			// Context and is a nil dereference without one
+			name, ok := ll.At(0).(stringValue)
+			if !ok {
+				panic(fmt.Errorf(`expected the name of what is deferred as first argument of Deferred()`))
+			}
 			params := ll.Slice(1, ll.Len()).AppendTo(make([]px.Value, 0, ll.Len()-1))
-			p.d.Add(NewDeferred(ll.At(0).String(), params...))
+			p.d.Add(NewDeferred(string(name), params...))
 		}
 	default:
 		p.d.Add(sv)
